@@ -1,11 +1,19 @@
 open Drv_common
+module M = struct
+  include Drv_common.M
+  include ConfigGen
+  include Config
+  include Emode
+  include ConfigPaths
+  include ConfigHealth
+end
 (* ------------------------------------------------------------------ config (level A) and cfgsim (level C) for C13 *)
 let parse_ir13 (t : toks) : M.ir_config =
   let ct = nz t in
   let opt = nz t in let pl = nz t in let mx = nz t in
   let insf = nz t in let insr = nz t in let grpf = nz t in let grpr = nz t in
   let zero = nz t in let hundred = nz t in
-  let pts = List.init 5 (fun _ -> let u = nz t in let r = nz t in { M.rp_util = u; rp_rate = r }) in
+  let pts = Stdlib.List.init 5 (fun _ -> let u = nz t in let r = nz t in { M.rp_util = u; rp_rate = r }) in
   { M.ir_optimal = opt; ir_plateau = pl; ir_max = mx; ir_ins_fixed = insf; ir_ins_rate = insr;
     ir_grp_fixed = grpf; ir_grp_rate = grpr; ir_zero = zero; ir_hundred = hundred; ir_points = pts;
     ir_curve_type = ct }
@@ -24,7 +32,7 @@ let dump_ir (c : M.ir_config) : string =
   String.concat " "
     ([zs c.M.ir_curve_type; zs c.M.ir_optimal; zs c.M.ir_plateau; zs c.M.ir_max; zs c.M.ir_ins_fixed;
       zs c.M.ir_ins_rate; zs c.M.ir_grp_fixed; zs c.M.ir_grp_rate; zs c.M.ir_zero; zs c.M.ir_hundred]
-     @ List.concat_map (fun p -> [zs p.M.rp_util; zs p.M.rp_rate]) c.M.ir_points)
+     @ Stdlib.List.concat_map (fun p -> [zs p.M.rp_util; zs p.M.rp_rate]) c.M.ir_points)
 
 let dump_cfg (c : M.bank_cfg) : string =
   String.concat " "
@@ -33,7 +41,7 @@ let dump_cfg (c : M.bank_cfg) : string =
      zs c.M.bc_init_limit; zs c.M.bc_max_age; zs c.M.bc_max_conf; zs c.M.bc_oracle_key]
 
 let dump_entries (l : M.emode_entry list) : string =
-  String.concat " " (List.map (fun e -> String.concat " " [zs e.M.ee_tag; zs e.M.ee_flags; zs e.M.ee_init; zs e.M.ee_maint]) l)
+  String.concat " " (Stdlib.List.map (fun e -> String.concat " " [zs e.M.ee_tag; zs e.M.ee_flags; zs e.M.ee_init; zs e.M.ee_maint]) l)
 
 let dump_emode (e : M.emode_settings) : string =
   String.concat " " [zs e.M.es_tag; zs e.M.es_timestamp; zs e.M.es_flags; dump_entries e.M.es_entries]
@@ -47,7 +55,7 @@ let opt (t : toks) (f : toks -> 'a) : 'a option =
 let parse_ir_opt (t : toks) : M.ir_opt =
   let a = opt t nz in let b = opt t nz in let c = opt t nz in let d = opt t nz in let o = opt t nz in
   let z = opt t nz in let h = opt t nz in
-  let p = opt t (fun t -> List.init 5 (fun _ -> let u = nz t in let r = nz t in { M.rp_util = u; rp_rate = r })) in
+  let p = opt t (fun t -> Stdlib.List.init 5 (fun _ -> let u = nz t in let r = nz t in { M.rp_util = u; rp_rate = r })) in
   { M.io_ins_fixed = a; io_ins_rate = b; io_grp_fixed = c; io_grp_rate = d; io_orig = o; io_zero = z;
     io_hundred = h; io_points = p }
 
@@ -62,7 +70,7 @@ let parse_opt (t : toks) : M.cfg_opt =
     o_pbd = pbd; o_freeze = fr; o_tokenless = tl }
 
 let parse_entries (t : toks) : M.emode_entry list =
-  List.init 10 (fun _ ->
+  Stdlib.List.init 10 (fun _ ->
     let tag = nz t in let fl = nz t in let i = nz t in let m = nz t in
     { M.ee_tag = tag; ee_flags = fl; ee_init = i; ee_maint = m })
 
@@ -104,7 +112,7 @@ let suite_config (line : string) : string =
       "OK " ^ dump_cfg b.M.cb_cfg ^ " " ^ zs b.M.cb_flags
   | "REC" ->
       let k = ni t in
-      let cfgs = List.init k (fun _ -> parse_entries t) in
+      let cfgs = Stdlib.List.init k (fun _ -> parse_entries t) in
       res_s (fun l -> "OK " ^ dump_entries l) (M.reconcile_emode_configs cfgs)
   | "CV" ->
       let a = nz t in let p = nz t in let d = nz t in let w = nz t in
@@ -118,7 +126,7 @@ let parse_compact (t : toks) : M.cfg_compact =
   let awi = nz t in let awm = nz t in let lwi = nz t in let lwm = nz t in let dep = nz t in
   let insf = nz t in let insr = nz t in let grpf = nz t in let grpr = nz t in let orig = nz t in
   let zero = nz t in let hundred = nz t in
-  let pts = List.init 5 (fun _ -> let u = nz t in let r = nz t in { M.rp_util = u; rp_rate = r }) in
+  let pts = Stdlib.List.init 5 (fun _ -> let u = nz t in let r = nz t in { M.rp_util = u; rp_rate = r }) in
   let op = nz t in let bor = nz t in let tier = nz t in let tag = nz t in let lim = nz t in
   let age = nz t in let conf = nz t in
   { M.cc_awi = awi; cc_awm = awm; cc_lwi = lwi; cc_lwm = lwm; cc_deposit = dep;
@@ -199,22 +207,22 @@ let suite_cfgsim (line : string) : string =
           (* external event: the bankruptcy handler (not a configuration request) moves the bank to
              KilledByBankruptcy; the fixture that prepares the debt also installs a Fixed oracle (key 0) *)
           let i = ni t in
-          on_bank i (fun b -> M.Ok { b with M.cb_cfg = { b.M.cb_cfg with M.bc_op_state = M.oP_KILLED; bc_oracle_key = zi 0 } })
+          on_bank i (fun b -> M.Ok { b with M.cb_cfg = { b.M.cb_cfg with M.bc_op_state = M.coq_OP_KILLED; bc_oracle_key = zi 0 } })
       | "MIG" -> let i = ni t in on_bank i (fun b -> M.ix_migrate_curve b)
       | "HP" ->
           let k = ni t in
-          let raw = List.init k (fun _ -> let i = ni t in let liab = nb t in let sh = nz t in let pr = nz t in (i, liab, sh, pr)) in
-          if List.exists (fun (i, _, _, _) -> banks.(i) = None) raw then "ABSENT"
+          let raw = Stdlib.List.init k (fun _ -> let i = ni t in let liab = nb t in let sh = nz t in let pr = nz t in (i, liab, sh, pr)) in
+          if Stdlib.List.exists (fun (i, _, _, _) -> banks.(i) = None) raw then "ABSENT"
           else begin
             (* the probe's fixture: unit share values (amount = shares), the probed balance is the bank's
                only deposit, mint decimals 6 *)
-            let ps = List.map (fun (i, liab, sh, pr) ->
+            let ps = Stdlib.List.map (fun (i, liab, sh, pr) ->
               match banks.(i) with
               | Some b -> M.probe_position liab sh pr (zi 6) b (if liab then zi 0 else sh)
               | None -> failwith "absent") raw in
-            if List.exists (function M.Err _ -> true | M.Ok _ -> false) ps then "PROBE-ERR"
+            if Stdlib.List.exists (function M.Err _ -> true | M.Ok _ -> false) ps then "PROBE-ERR"
             else begin
-              let l = List.map (function M.Ok p -> p | M.Err _ -> failwith "unreachable") ps in
+              let l = Stdlib.List.map (function M.Ok p -> p | M.Err _ -> failwith "unreachable") ps in
               let hi = M.account_health M.CRInitial l in
               let hm = M.account_health M.CRMaint l in
               match hi, hm with
@@ -227,6 +235,6 @@ let suite_cfgsim (line : string) : string =
       | x -> failwith ("unknown step " ^ x) in
     out := s :: !out
   done;
-  String.concat " | " (List.rev !out)
+  String.concat " | " (Stdlib.List.rev !out)
 
 let () = register "cfgsim" suite_cfgsim
